@@ -27,6 +27,19 @@ def run(ctx):
     for i in range(ctx.n(250, 2500)):
         hists.append(R.gen_history(ctx.rng, ctx.rng.choice([1, 2, 3, 4, 6, 8, 12])))
     check_histories(ctx, hists)
+    # independent of the model: every kind of registration on every shipped entry class, in random order inside one interpreter; the tables
+    # and the observable behaviour of every OTHER shipped entry class must not move (the frozen lattice fact C10_entry_classes_unrelated)
+    from tools import corr
+    from tools.layers.direct import ENTRY_CLASSES
+    pairs = [[k, c] for k in ('ctor', 'multi_ctor', 'repr', 'multi_repr', 'implicit', 'path') for c in ENTRY_CLASSES]
+    for rep in range(ctx.n(2, 6)):
+        order = list(pairs); ctx.rng.shuffle(order)
+        res = vlib.run_impl('direct', [['c10x'] + p for p in order], shards=1)
+        for p, r in zip(order, res):
+            ctx.count('entry_' + (r.get('outcome', '?') if isinstance(r, dict) else 'harness'))
+            ctx.case(('c10x', rep, tuple(p)), nontrivial=True, sample=dict(direct='c10x', kind=p[0], target=p[1]))
+            for b in (r.get('bad', []) if isinstance(r, dict) else [dict(kind='harness', what=str(r)[:200])]):
+                ctx.violation(b['what'], dict(history=[['add', p[0], p[1]]], order_seed=rep, **b), dict(kind=b['kind'], target=p[1], other=b.get('other')))
     return ctx.finish(assumptions=['C3 linearisation of user classes is computed by CPython and given to the model',
                                    'value lists of implicit resolvers are compared by content; list-object aliasing is caught through the tables it changes'])
 
@@ -92,5 +105,11 @@ def replay(ctx, path):
     h = d['case']['history'] if d.get('kind') == 'failing-input' else []
     ctx.rule = RULE
     ctx.regen(); ctx.prove()
+    if d.get('case', {}).get('target'):                 # an entry-class isolation probe (model-independent)
+        c = d['case']; kind = c['history'][0][1]
+        r = vlib.run_impl('direct', [['c10x', kind, c['target']]], shards=1)[0]
+        for b in (r.get('bad', []) if isinstance(r, dict) else []):
+            ctx.violation(b['what'], dict(history=c['history'], **b), dict(kind=b['kind'], target=c['target'], other=b.get('other')))
+        return ctx.finish()
     check_histories(ctx, [h])
     return ctx.finish()
